@@ -14,6 +14,7 @@ DEFAULT_FLAGS = {
     "cancel": 0,  # max number of cancel requests
     "restore": 0,  # weight of restore op
     "pending": 0,  # weight of reporting an in-flight plain action pending
+    "interim": 0,  # in-flight actions may report the intermediate status canceling while the workflow is canceling
     "badreq": 0,  # weight of a (probably) forbidden status request
     "abend": 1,  # allow timeout/abandoned/canceled reports as outcomes
     "eager_poll": 0,  # poll after every op automatically (only completion order varies)
@@ -45,6 +46,7 @@ class Run(object):
         self.history = []  # concrete ops applied
         self.nsteps = 0
         self.controls = sorted([list(c) for c in (scn.get("controls") or [])])
+        self.interim_sent = set()
 
     # ---------------------------------------------------------------- outcome of an action
     def outcome(self, a):
@@ -61,6 +63,8 @@ class Run(object):
             tok = "%s.%d" % (task, self.seq)
         if not self.flags["abend"] and s in (st.EXPIRED, st.ABANDONED, st.CANCELED):
             s = st.FAILED
+        if tuple(a) in self.interim_sent:
+            s = st.CANCELED  # an action that reported canceling ends canceled (as st2 does)
         return s, {"tok": tok, "code": code}
 
     # ---------------------------------------------------------------- enabled operations
@@ -79,6 +83,10 @@ class Run(object):
             for a in d.inflight[: f["pending"]]:
                 if a[2] is None:
                     ops.append(("pend", a))
+        if f["interim"] and s == st.CANCELING:
+            for a in d.inflight:
+                if tuple(a) not in self.interim_sent and list(a) not in getattr(d, "unstarted", ()):
+                    ops.append(("interim", a))
         if self.pauses < f["pause"] and s in (st.RUNNING, st.RESUMING):
             ops.append(("pause",))
             if d.inflight:
@@ -102,6 +110,10 @@ class Run(object):
         if k == "done":
             s, r = self.outcome(sel[1])
             return {"op": "done", "a": list(sel[1]), "status": s, "result": r}
+        if k == "interim":
+            # the action has been asked to stop and says so; its final report (canceled) follows later
+            self.interim_sent.add(tuple(sel[1]))
+            return {"op": "report", "a": list(sel[1]), "status": st.CANCELING}
         if k == "begin":
             return {"op": "begin", "a": list(sel[1])}
         if k == "pend":
